@@ -116,7 +116,7 @@ _units(["margin"], "margin")
 
 # ---- CombinedDataHandler.__init__ and the Estimandizer: joined table and derived quantities --------------
 
-def _feed_and_baseline(h, estimands):
+def _feed_and_baseline(h, estimands, nullable_results=False):
     """symbolic preprocessed table and live feed (raw columns), key-unique over unit ids"""
     root, fips = frames.unit_universe("units")
     h.ctx.assume(z3.And(*root.facts()))
@@ -135,13 +135,22 @@ def _feed_and_baseline(h, estimands):
         base_cols[c] = fn(c, R)(u)
         h.ctx.assume(base_cols[c] >= 0)
     feed_cols = {"postal_code": pc_f, "geographic_unit_fips": fips(u), "percent_expected_vote": fn("pev", R)(u)}
+    nulls = {}
     for c in ("results_turnout", "results_dem", "results_gop"):
         feed_cols[c] = fn(c, R)(u)
         h.ctx.assume(feed_cols[c] >= 0)
+        if nullable_results:
+            # a feed may deliver one count of a unit but not another (NaN)
+            nulls[c] = fn("null_" + c, B)(u)
+            feed_cols[c] = V(feed_cols[c], (), None, nulls[c])
     h.ctx.assume(feed_cols["percent_expected_vote"] >= 0)
     base = frames.base_frame(root, inBase, base_cols, "geographic_unit_fips")
     feed = frames.base_frame(root, inFeed, feed_cols, "geographic_unit_fips")
-    return root, base, feed, dict(inBase=inBase, inFeed=inFeed, pc_b=pc_b, pc_f=pc_f, **{k: v for k, v in base_cols.items()}, **{k: v for k, v in feed_cols.items() if k.startswith("results") or k == "percent_expected_vote"})
+    out = dict(inBase=inBase, inFeed=inFeed, pc_b=pc_b, pc_f=pc_f, nulls=nulls, **{k: v for k, v in base_cols.items()})
+    for k, v in feed_cols.items():
+        if k.startswith("results") or k == "percent_expected_vote":
+            out[k] = v.t if isinstance(v, V) else v
+    return root, base, feed, out
 
 
 def _div0(a, b):
